@@ -335,11 +335,101 @@ Proof.
   f_equal. lia.
 Qed.
 
-(* a value that already has the target exponent and at most 28 digits is returned unchanged *)
-Lemma quantize_fixed s q e : etiny <= e <= emax -> 0 <= q < 10 ^ prec ->
+(* for a negative digits argument the number of digits of the literal matters: Decimal(1) has one *)
+Lemma quantum_one_digit : exists b : N, dp_quantum = QScaleb b (-1) 0 /\ ndigits (Z.of_N b) = 1.
+Proof. eexists. split; reflexivity. Qed.
+
+Lemma quantum_exp_range d : - emax <= d <= - etiny -> quantum_exp d = Ok (- d).
+Proof.
+  intros H. destruct quantum_one_digit as (b & Hq & Hb).
+  unfold quantum_exp. rewrite Hq. unfold quantum_exp_with. rewrite Hb.
+  unfold etiny, emax, prec in *.
+  destruct ((-1 * d + 0 <? - (2 * (999999 + 28))) || (2 * (999999 + 28) <? -1 * d + 0)) eqn:E1; [lia|].
+  destruct (999999 <? -1 * d + 0 + 1 - 1) eqn:E2; [lia|].
+  f_equal. lia.
+Qed.
+
+(* below -Emax the quantum itself overflows (decimal.Overflow, trapped by the default context), beyond twice
+   the exponent range scaleb refuses its argument *)
+Lemma quantum_exp_overflow d : - (2 * (emax + prec)) <= d < - emax -> quantum_exp d = Err OtherError.
+Proof.
+  intros H. destruct quantum_one_digit as (b & Hq & Hb).
+  unfold quantum_exp. rewrite Hq. unfold quantum_exp_with. rewrite Hb.
+  unfold etiny, emax, prec in *.
+  destruct ((-1 * d + 0 <? - (2 * (999999 + 28))) || (2 * (999999 + 28) <? -1 * d + 0)) eqn:E1; [lia|].
+  destruct (999999 <? -1 * d + 0 + 1 - 1) eqn:E2; [reflexivity|lia].
+Qed.
+
+Lemma quantum_exp_invalid d : d < - (2 * (emax + prec)) \/ 2 * (emax + prec) < d -> quantum_exp d = Err DecimalInvalid.
+Proof.
+  intros H. destruct quantum_shape as (b & Hq & _).
+  unfold quantum_exp. rewrite Hq. unfold quantum_exp_with.
+  unfold etiny, emax, prec in *.
+  destruct ((-1 * d + 0 <? - (2 * (999999 + 28))) || (2 * (999999 + 28) <? -1 * d + 0)) eqn:E1; [reflexivity|lia].
+Qed.
+
+(* above -Etiny the quantum underflows to exponent Etiny: the result has 1000026 fractional digits, not d *)
+Lemma quantum_exp_underflow d : - etiny <= d <= 2 * (emax + prec) -> quantum_exp d = Ok etiny.
+Proof.
+  intros H. destruct quantum_shape as (b & Hq & Hb).
+  unfold quantum_exp. rewrite Hq. unfold quantum_exp_with.
+  pose proof (ndigits_le (Z.of_N b) 28 Hb ltac:(lia)) as Hn. change (Z.of_nat 28) with 28 in Hn.
+  unfold etiny, emax, prec in *.
+  destruct ((-1 * d + 0 <? - (2 * (999999 + 28))) || (2 * (999999 + 28) <? -1 * d + 0)) eqn:E1; [lia|].
+  destruct (999999 <? -1 * d + 0 + ndigits (Z.of_N b) - 1) eqn:E2; [lia|].
+  f_equal. lia.
+Qed.
+
+(* number of digits and size *)
+Lemma ndigits_gt c : 0 <= c -> c < 10 ^ ndigits c.
+Proof.
+  intros Hc. unfold ndigits.
+  destruct (str_nonneg_spec c Hc) as (Hd & Hval & _).
+  pose proof (dval_range _ Hd) as R. rewrite Hval in R. lia.
+Qed.
+
+Lemma ndigits_lt_iff c n : 0 <= c -> 1 <= n -> (ndigits c <= n <-> c < 10 ^ n).
+Proof.
+  intros Hc Hn. split; intros H.
+  - apply Z.lt_le_trans with (10 ^ ndigits c); [apply ndigits_gt; exact Hc|].
+    apply Z.pow_le_mono_r; [lia|exact H].
+  - pose proof (ndigits_le c (Z.to_nat n)) as L. rewrite Z2Nat.id in L by lia.
+    apply L; [lia|lia].
+Qed.
+
+(* the two last tests of quantize amount to one bound B = 10^p on the coefficient,
+   p = min(precision, Emax + 1 - exponent) *)
+Lemma tail_ok s q e p : p = Z.min prec (emax + 1 - e) -> 1 <= p -> 0 <= q < 10 ^ p ->
+  (if 10 ^ prec <=? q then Err DecimalInvalid else within_emax (mkdec s (Z.to_N q) e)) = Ok (mkdec s (Z.to_N q) e).
+Proof.
+  intros Hp H1 Hq.
+  assert (Hle1 : 10 ^ p <= 10 ^ prec) by (apply Z.pow_le_mono_r; lia).
+  assert (Hle2 : 10 ^ p <= 10 ^ (emax + 1 - e)) by (apply Z.pow_le_mono_r; lia).
+  destruct (10 ^ prec <=? q) eqn:E1; [lia|].
+  unfold within_emax. cbn [dexp coef]. rewrite Z2N.id by lia.
+  assert (Hn : ndigits q <= emax + 1 - e) by (apply ndigits_lt_iff; lia).
+  destruct (emax <? e + ndigits q - 1) eqn:E2; [lia|reflexivity].
+Qed.
+
+Lemma tail_err s q e p : p = Z.min prec (emax + 1 - e) -> 1 <= p -> 10 ^ p <= q ->
+  (if 10 ^ prec <=? q then Err DecimalInvalid else within_emax (mkdec s (Z.to_N q) e)) = Err DecimalInvalid.
+Proof.
+  intros Hp H1 Hq.
+  assert (H0 : 0 < 10 ^ p) by (apply pow10_gt0; lia).
+  destruct (10 ^ prec <=? q) eqn:E1; [reflexivity|].
+  unfold within_emax. cbn [dexp coef]. rewrite Z2N.id by lia.
+  destruct (Z.min_spec prec (emax + 1 - e)) as [[_ Hm]|[_ Hm]]; [rewrite Hm in Hp; subst p; lia|].
+  rewrite Hm in Hp. subst p.
+  assert (Hn : ~ ndigits q <= emax + 1 - e) by (rewrite ndigits_lt_iff; lia).
+  destruct (emax <? e + ndigits q - 1) eqn:E2; [reflexivity|lia].
+Qed.
+
+(* a value that already has the target exponent and fits is returned unchanged *)
+Lemma quantize_fixed s q e p : etiny <= e <= emax -> p = Z.min prec (emax + 1 - e) -> 0 <= q < 10 ^ p ->
   quantize (mkdec s (Z.to_N q) e) e = Ok (mkdec s (Z.to_N q) e).
 Proof.
-  intros He Hq. unfold quantize, quantize_with. cbn [neg coef dexp].
+  intros He Hp Hq. unfold quantize, quantize_with. cbn [neg coef dexp].
+  assert (H1 : 1 <= p) by (unfold emax, prec in *; lia).
   destruct ((e <? etiny) || (emax <? e)) eqn:G; [lia|].
   rewrite Z2N.id by lia.
   destruct (q =? 0) eqn:E0.
@@ -347,37 +437,41 @@ Proof.
   - rewrite Z.sub_diag. change (0 <=? 0) with true. cbv iota.
     change (prec <? 0) with false. cbv iota.
     change (10 ^ 0) with 1. rewrite Z.mul_1_r.
-    destruct (10 ^ prec <=? q) eqn:E1; [lia|reflexivity].
+    apply (tail_ok s q e p Hp H1 Hq).
 Qed.
 
 Lemma sgn_abs (s : bool) (a b : Z) : Z.abs ((if s then -1 else 1) * a - (if s then -1 else 1) * b) = Z.abs (a - b).
 Proof. destruct s; lia. Qed.
 
-Lemma decimal_places_ok d x : 0 <= d <= - etiny -> fitsb d x = true ->
-  exists r, decimal_places d x = Ok r /\ dexp r = - d /\ closeb d x r = true /\
-            decimal_places d r = Ok r.
+Lemma digits_allowed_is d : digits_allowed d = Z.min prec (emax + 1 - (- d)).
+Proof. unfold digits_allowed, prec, emax. f_equal. lia. Qed.
+
+(* quantize to exponent -d, for every d the default context admits as a target exponent *)
+Lemma quantize_ok d x : etiny <= - d <= emax -> fits_ctx d x = true ->
+  exists r, quantize x (- d) = Ok r /\ dexp r = - d /\ closeb d x r = true /\ quantize r (- d) = Ok r.
 Proof.
-  intros Hd Hfit. rewrite !decimal_places_shape. setoid_rewrite decimal_places_shape.
-  rewrite (quantum_exp_ok d Hd). cbn [bind].
-  assert (He : etiny <= - d <= emax) by (unfold etiny, emax in *; lia).
-  set (e := - d) in *.
-  unfold fitsb, common in Hfit. fold e in Hfit.
+  intros He Hfit.
+  pose proof (digits_allowed_is d) as Hp.
+  set (e := - d) in *. set (p := digits_allowed d) in *.
+  assert (H1 : 1 <= p) by (unfold emax, prec in *; lia).
+  unfold fits_ctx, common in Hfit. fold e p in Hfit.
   unfold closeb, common, scaled, sgn. fold e.
   unfold quantize at 1. unfold quantize_with. rewrite round_div_default.
   destruct ((e <? etiny) || (emax <? e)) eqn:G; [lia|].
   set (c := Z.of_N (coef x)) in *.
   assert (Hc : 0 <= c) by (unfold c; lia).
-  set (B := 10 ^ prec) in *. change (10 ^ 28) with B in Hfit.
-  assert (HB : 0 < B) by (unfold B, prec; lia).
+  set (B := 10 ^ p) in *.
+  assert (HB : 0 < B) by (unfold B; apply pow10_gt0; lia).
+  assert (HBp : B <= 10 ^ prec) by (unfold B; apply Z.pow_le_mono_r; lia).
   destruct (c =? 0) eqn:E0.
   - (* zero *)
     eexists. split; [reflexivity|]. cbn [neg coef dexp].
     split; [reflexivity|]. split.
     + assert (c = 0) by lia. replace c with 0 by lia. change (Z.of_N 0) with 0.
-      destruct (pow10_pos (e - Z.min (dexp x) e)) as [H1|H1];
+      destruct (pow10_pos (e - Z.min (dexp x) e)) as [H2|H2];
         set (u := 10 ^ (e - Z.min (dexp x) e)) in *; set (w := 10 ^ (dexp x - Z.min (dexp x) e));
         destruct (neg x); lia.
-    + change 0%N with (Z.to_N 0). apply quantize_fixed; [exact He|lia].
+    + change 0%N with (Z.to_N 0). apply (quantize_fixed _ 0 e p He Hp). fold B. lia.
   - destruct (0 <=? dexp x - e) eqn:Ek.
     + (* scaled up, exact *)
       assert (Hmin : Z.min (dexp x) e = e) by lia. rewrite Hmin in *.
@@ -387,30 +481,30 @@ Proof.
       assert (Hlt : c * 10 ^ k < B) by lia.
       destruct (prec <? k) eqn:Ep.
       * exfalso.
-        assert (H1 : B < 10 ^ k) by (unfold B; apply Z.pow_lt_mono_r; unfold prec in *; lia).
-        assert (H2 : 10 ^ k <= c * 10 ^ k) by nia. lia.
-      * destruct (B <=? c * 10 ^ k) eqn:Eb; [lia|].
+        assert (H2 : 10 ^ prec < 10 ^ k) by (apply Z.pow_lt_mono_r; unfold prec in *; lia).
+        assert (H3 : 10 ^ k <= c * 10 ^ k) by nia. lia.
+      * rewrite (tail_ok (neg x) (c * 10 ^ k) e p Hp H1) by (fold B; nia).
         eexists. split; [reflexivity|]. cbn [neg coef dexp].
         split; [reflexivity|]. split.
         -- rewrite Z.sub_diag. change (10 ^ 0) with 1. rewrite Z2N.id by nia. lia.
-        -- apply quantize_fixed; [exact He|]. fold B. nia.
+        -- apply (quantize_fixed _ _ e p He Hp). fold B. nia.
     + (* divided, rounded half to even *)
       assert (Hmin : Z.min (dexp x) e = dexp x) by lia. rewrite Hmin in *.
       rewrite Z.sub_diag in *. change (10 ^ 0) with 1 in *.
       replace (- (dexp x - e)) with (e - dexp x) by ring.
-      assert (Hp : 0 < 10 ^ (e - dexp x)) by (apply pow10_gt0; lia).
-      set (p := 10 ^ (e - dexp x)) in *.
-      destruct (round_half_even_spec c p Hc Hp) as (Hq0 & Hlo & Hhi).
-      set (q := round_half_even c p) in *.
+      assert (Hpp : 0 < 10 ^ (e - dexp x)) by (apply pow10_gt0; lia).
+      set (pw := 10 ^ (e - dexp x)) in *.
+      destruct (round_half_even_spec c pw Hc Hpp) as (Hq0 & Hlo & Hhi).
+      set (q := round_half_even c pw) in *.
       assert (HqB : q < B) by nia.
-      destruct (B <=? q) eqn:Eb; [lia|].
+      rewrite (tail_ok (neg x) q e p Hp H1) by (fold B; lia).
       eexists. split; [reflexivity|]. cbn [neg coef dexp].
       split; [reflexivity|]. split.
-      * rewrite Z2N.id by lia. fold p. rewrite <- !Z.mul_assoc, sgn_abs. lia.
-      * apply quantize_fixed; [exact He|]. fold B. lia.
+      * rewrite Z2N.id by lia. fold pw. rewrite <- !Z.mul_assoc, sgn_abs. lia.
+      * apply (quantize_fixed _ _ e p He Hp). fold B. lia.
 Qed.
 
-(* the other direction: outside [fitsb] the helper raises InvalidOperation *)
+(* the other direction: outside [fits_ctx] quantize raises InvalidOperation *)
 Lemma round_half_even_big c p B : 0 <= c -> 0 < p -> Z.even (B - 1) = false ->
   2 * (B * p) <= 2 * c + p -> B <= round_half_even c p.
 Proof.
@@ -432,19 +526,28 @@ Proof.
   - destruct (2 * r <? p); [lia|]. destruct (p <? 2 * r); [lia|]. destruct (Z.even q0); lia.
 Qed.
 
-Lemma decimal_places_err d x : 0 <= d <= - etiny -> fitsb d x = false ->
-  decimal_places d x = Err DecimalInvalid.
+Lemma pow10_pred_odd p : 1 <= p -> Z.even (10 ^ p - 1) = false.
 Proof.
-  intros Hd Hfit. rewrite decimal_places_shape, (quantum_exp_ok d Hd). cbn [bind].
-  assert (He : etiny <= - d <= emax) by (unfold etiny, emax in *; lia).
-  set (e := - d) in *.
-  unfold fitsb, common in Hfit. fold e in Hfit.
+  intros H. replace p with (Z.succ (p - 1)) by lia. rewrite Z.pow_succ_r by lia.
+  replace (10 * 10 ^ (p - 1) - 1) with (1 + 2 * (5 * 10 ^ (p - 1) - 1)) by ring.
+  rewrite Z.even_add_mul_2. reflexivity.
+Qed.
+
+Lemma quantize_err d x : etiny <= - d <= emax -> fits_ctx d x = false ->
+  quantize x (- d) = Err DecimalInvalid.
+Proof.
+  intros He Hfit.
+  pose proof (digits_allowed_is d) as Hp.
+  set (e := - d) in *. set (p := digits_allowed d) in *.
+  assert (H1 : 1 <= p) by (unfold emax, prec in *; lia).
+  unfold fits_ctx, common in Hfit. fold e p in Hfit.
   unfold quantize, quantize_with. rewrite round_div_default.
   destruct ((e <? etiny) || (emax <? e)) eqn:G; [lia|].
   set (c := Z.of_N (coef x)) in *.
   assert (Hc : 0 <= c) by (unfold c; lia).
-  set (B := 10 ^ prec) in *. change (10 ^ 28) with B in Hfit.
-  assert (HB : 1 <= B) by (unfold B, prec; lia).
+  set (B := 10 ^ p) in *.
+  assert (HB : 1 <= B) by (unfold B; pose proof (pow10_gt0 p); lia).
+  assert (HBp : B <= 10 ^ prec) by (unfold B; apply Z.pow_le_mono_r; lia).
   assert (Hu : 0 < 10 ^ (e - Z.min (dexp x) e)) by (apply pow10_gt0; lia).
   destruct (c =? 0) eqn:E0.
   - exfalso. assert (c = 0) by lia.
@@ -454,14 +557,69 @@ Proof.
     + assert (Hmin : Z.min (dexp x) e = e) by lia. rewrite Hmin in *.
       rewrite Z.sub_diag in *. change (10 ^ 0) with 1 in *.
       destruct (prec <? dexp x - e); [reflexivity|].
-      destruct (B <=? c * 10 ^ (dexp x - e)) eqn:Eb; [reflexivity|lia].
+      apply (tail_err (neg x) _ e p Hp H1). fold B. lia.
     + assert (Hmin : Z.min (dexp x) e = dexp x) by lia. rewrite Hmin in *.
       rewrite Z.sub_diag in *. change (10 ^ 0) with 1 in *.
       replace (- (dexp x - e)) with (e - dexp x) by ring.
-      set (p := 10 ^ (e - dexp x)) in *.
-      assert (Hbig : B <= round_half_even c p).
-      { apply round_half_even_big; [exact Hc|exact Hu|reflexivity|lia]. }
-      destruct (B <=? round_half_even c p) eqn:Eb; [reflexivity|lia].
+      set (pw := 10 ^ (e - dexp x)) in *.
+      assert (Hbig : B <= round_half_even c pw).
+      { apply round_half_even_big; [exact Hc|exact Hu|apply pow10_pred_odd; exact H1|lia]. }
+      apply (tail_err (neg x) _ e p Hp H1). fold B. exact Hbig.
+Qed.
+
+(* for d >= -999972, in particular for every d >= 0, the bound is the precision alone *)
+Lemma fits_ctx_fitsb d x : -999972 <= d -> fits_ctx d x = fitsb d x.
+Proof.
+  intros H. unfold fits_ctx, fitsb, digits_allowed.
+  replace (Z.min 28 (1000000 + d)) with 28 by lia. reflexivity.
+Qed.
+
+Lemma decimal_places_ok_ctx d x : - emax <= d <= - etiny -> fits_ctx d x = true ->
+  exists r, decimal_places d x = Ok r /\ dexp r = - d /\ closeb d x r = true /\
+            decimal_places d r = Ok r.
+Proof.
+  intros Hd Hfit. rewrite !decimal_places_shape. setoid_rewrite decimal_places_shape.
+  rewrite (quantum_exp_range d Hd). cbn [bind].
+  apply quantize_ok; [lia|exact Hfit].
+Qed.
+
+Lemma decimal_places_err_ctx d x : - emax <= d <= - etiny -> fits_ctx d x = false ->
+  decimal_places d x = Err DecimalInvalid.
+Proof.
+  intros Hd Hfit. rewrite decimal_places_shape, (quantum_exp_range d Hd). cbn [bind].
+  apply quantize_err; [lia|exact Hfit].
+Qed.
+
+Lemma decimal_places_ok d x : 0 <= d <= - etiny -> fitsb d x = true ->
+  exists r, decimal_places d x = Ok r /\ dexp r = - d /\ closeb d x r = true /\
+            decimal_places d r = Ok r.
+Proof.
+  intros Hd Hfit. rewrite !decimal_places_shape. setoid_rewrite decimal_places_shape.
+  rewrite (quantum_exp_ok d Hd). cbn [bind].
+  apply quantize_ok; [unfold etiny, emax in *; lia|rewrite fits_ctx_fitsb by lia; exact Hfit].
+Qed.
+
+Lemma decimal_places_err d x : 0 <= d <= - etiny -> fitsb d x = false ->
+  decimal_places d x = Err DecimalInvalid.
+Proof.
+  intros Hd Hfit. rewrite decimal_places_shape, (quantum_exp_ok d Hd). cbn [bind].
+  apply quantize_err; [unfold etiny, emax in *; lia|rewrite fits_ctx_fitsb by lia; exact Hfit].
+Qed.
+
+(* outside the digit counts the context admits *)
+Lemma decimal_places_digits_overflow d x : - (2 * (emax + prec)) <= d < - emax -> decimal_places d x = Err OtherError.
+Proof. intros H. rewrite decimal_places_shape, (quantum_exp_overflow d H). reflexivity. Qed.
+
+Lemma decimal_places_digits_invalid d x : d < - (2 * (emax + prec)) \/ 2 * (emax + prec) < d ->
+  decimal_places d x = Err DecimalInvalid.
+Proof. intros H. rewrite decimal_places_shape, (quantum_exp_invalid d H). reflexivity. Qed.
+
+(* beyond 1000026 digits the quantum underflows to Etiny: the call behaves as with 1000026 *)
+Lemma decimal_places_digits_underflow d x : - etiny <= d <= 2 * (emax + prec) ->
+  decimal_places d x = decimal_places (- etiny) x.
+Proof.
+  intros H. rewrite !decimal_places_shape, (quantum_exp_underflow d H).
+  rewrite (quantum_exp_ok (- etiny)) by (unfold etiny; lia). reflexivity.
 Qed.
 
 (* ================= CONVERSION ================= *)
